@@ -155,3 +155,123 @@ def raiseView : List (Out α) → List (Proto × Bytes × Option α) × Option E
   | _ :: rest => raiseView rest
 
 end Ubx
+
+namespace Ubx
+variable {α σ : Type}
+
+/-! ### Framing separated from parsing
+
+`delimit` is the part of a pass that only talks to the byte source; `post` applies the filter and
+the protocol parser. `step = post ∘ delimit` (theorem `step_eq` in `Proofs/Frames`). -/
+
+inductive Pass (σ : Type) where
+  | eof
+  | short
+  | skip (s1 : σ)
+  | unknown (s2 : σ)
+  | frame (p : Proto) (raw : Bytes) (s' : σ)
+
+def delimit (S : Src σ) (nmeaHdr : Byte → Bool) (s : σ) : Pass σ :=
+  match S.read 1 s with
+  | .eof => .eof
+  | .short => .short
+  | .ok d1 s1 =>
+    let b1 := d1.getD 0 0
+    if !isPre b1 then .skip s1 else
+    match S.read 1 s1 with
+    | .eof => .eof
+    | .short => .short
+    | .ok d2 s2 =>
+      let b2 := d2.getD 0 0
+      if b1 = 0xb5 ∧ b2 = 0x62 then
+        match S.read 4 s2 with
+        | .eof => .eof
+        | .short => .short
+        | .ok h s3 =>
+          match S.read (ubxLen h) s3 with
+          | .eof => .eof
+          | .short => .short
+          | .ok body s4 => .frame .ubx (d1 ++ d2 ++ h ++ body) s4
+      else if b1 = 0x24 ∧ nmeaHdr b2 then
+        match S.line s2 with
+        | .eof => .eof
+        | .short => .short
+        | .ok l s3 => .frame .nmea (d1 ++ d2 ++ l) s3
+      else if b1 = 0xd3 ∧ b2 &&& 0xfc = 0 then
+        match S.read 1 s2 with
+        | .eof => .eof
+        | .short => .short
+        | .ok d3 s3 =>
+          match S.read (rtcmLen d3 d2) s3 with
+          | .eof => .eof
+          | .short => .short
+          | .ok pl s4 =>
+            match S.read 3 s4 with
+            | .eof => .eof
+            | .short => .short
+            | .ok crc s5 => .frame .rtcm (d1 ++ d2 ++ d3 ++ pl ++ crc) s5
+      else .unknown s2
+
+def post (cfg : RCfg) (O : Oracle α) : Pass σ → Out α × Option σ
+  | .eof => (.eof, none)
+  | .short => (.err .stream, none)
+  | .skip s1 => (.skip, some s1)
+  | .unknown s2 => (.err .unknownHdr, some s2)
+  | .frame p raw s' => (finish cfg O p raw, some s')
+
+/-- the frames the reader delimits, whatever the filter and the parsers say -/
+def frames (S : Src σ) (nmeaHdr : Byte → Bool) : Nat → Option σ → List (Proto × Bytes)
+  | 0, _ => []
+  | _+1, none => []
+  | f+1, some s =>
+    match delimit S nmeaHdr s with
+    | .eof => []
+    | .short => []
+    | .skip s1 => frames S nmeaHdr f (some s1)
+    | .unknown s2 => frames S nmeaHdr f (some s2)
+    | .frame p raw s' => (p, raw) :: frames S nmeaHdr f (some s')
+
+/-- what becomes of a delimited frame under a configuration -/
+def deliver (cfg : RCfg) (O : Oracle α) (fr : Proto × Bytes) : Option (Proto × Bytes × Option α) :=
+  if cfg.filter &&& fr.1.bit ≠ 0 then
+    if cfg.parsing then
+      match O fr.1 fr.2 with
+      | .ok m => some (fr.1, fr.2, some m)
+      | _ => none
+    else some (fr.1, fr.2, none)
+  else none
+
+/-! ### The iteration with the error policy as written (`quitonerror`, `_do_error`) -/
+
+/-- what the caller of `for raw, parsed in reader` observes -/
+structure PRes (α : Type) where
+  items : List (Proto × Bytes × Option α)
+  /-- calls of the error handler / logger -/
+  calls : List EKind
+  /-- exception raised out of the iteration by `_do_error` (ERR_RAISE) -/
+  raised : Option EKind
+  /-- foreign exception escaping `read()` -/
+  crashed : Option (Proto × Nat)
+
+def PRes.consItem (x : Proto × Bytes × Option α) (r : PRes α) : PRes α := { r with items := x :: r.items }
+def PRes.consCall (k : EKind) (r : PRes α) : PRes α := { r with calls := k :: r.calls }
+
+/-- iteration under `quitonerror = q`: 0 ignore, 1 log (handler called), 2 raise; other values are
+    truthy but neither RAISE nor LOG, so `_do_error` does nothing -/
+def runP (S : Src σ) (nmeaHdr : Byte → Bool) (cfg : RCfg) (O : Oracle α) (q : Nat) :
+    Nat → Option σ → PRes α
+  | 0, _ => ⟨[], [], none, none⟩
+  | _+1, none => ⟨[], [], none, none⟩
+  | f+1, some s =>
+    match step S nmeaHdr cfg O s with
+    | (.eof, _) => ⟨[], [], none, none⟩
+    | (.crash p c, _) => ⟨[], [], none, some (p, c)⟩
+    | (.skip, s') => runP S nmeaHdr cfg O q f s'
+    | (.item p raw m, s') => (runP S nmeaHdr cfg O q f s').consItem (p, raw, m)
+    | (.err k, s') =>
+      if q = 0 then runP S nmeaHdr cfg O q f s'
+      else if q = 2 then ⟨[], [], some k, none⟩
+      else if q = 1 then (runP S nmeaHdr cfg O q f s').consCall k
+      else runP S nmeaHdr cfg O q f s'
+
+end Ubx
